@@ -8,6 +8,7 @@ Does not decide: value round-trip through .npz (dtype/precision), rng-state equa
 """
 from __future__ import annotations
 import ast
+import copy
 from ..model import qual
 from ..attrs import Typestate, NONE, NOTNONE, UNKNOWN, abstract_of
 from .common import struct_ob, U, invert_hazard_obligations
@@ -22,7 +23,7 @@ ENTRIES = ["take_step", "advance", "run_for", "get_parameter", "get_probabilitie
            "get_interval", "get_marginal", "mode", "save", "matrix_plot", "trace_plot", "plot_diagnostics"]
 FLOORS = {"key-agreement": 6, "reload-defined": 40, "save-defined": 5, "restored-value-flow": 4,
           "state-persisted": 7, "key-pairing": 4,
-          "stack-roundtrip": 2, "derived-consistent": 5, "slot-reselected": 1, "reloaded-limit-hook": 3, "ctor-arg-roundtrip": 1, "adaptation-test-survives-reload": 2, "saved-key-restored": 7}
+          "stack-roundtrip": 2, "derived-consistent": 5, "slot-reselected": 1, "reloaded-limit-hook": 3, "ctor-arg-roundtrip": 1, "rebuilt-object-roundtrip": 3, "adaptation-test-survives-reload": 2, "saved-key-restored": 7}
 
 
 def load_context(prog, ci):
@@ -379,6 +380,169 @@ def _ctor_arg_roundtrip(prog, ci, cname, lfn, call, values, rel):
     return out
 
 
+def _factory_ctor_bindings(prog, mod, callee, args, kwargs, depth=0):
+    """[(ClassInfo, {ctor parameter: argument expression})] for the objects `callee(*args, **kwargs)` may build: the callee is a
+    class, or a module-level factory whose return statements are such calls with the factory's own parameters handed on."""
+    out = []
+    name = callee.id if isinstance(callee, ast.Name) else callee.attr if isinstance(callee, ast.Attribute) else None
+    if name is None or depth > 2:
+        return out
+    if name in prog.classes:
+        ci = prog.classes[name]
+        ic, init = prog.find_method(ci, "__init__")
+        if init is None:
+            return out
+        ps = [a.arg for a in init.args.args[1:]]
+        b = dict(zip(ps, args))
+        b.update({k: v for k, v in kwargs.items() if k in ps or init.args.kwarg})
+        return [(ci, b)]
+    fn = None
+    for mi in prog.modules.values():
+        if name in mi.functions:
+            fn = mi.functions[name]
+            break
+    if fn is None:
+        return out
+    ps = [a.arg for a in fn.args.args]
+    b = dict(zip(ps, args))
+    b.update(kwargs)
+
+    class Sub(ast.NodeTransformer):
+        def visit_Name(self, n):
+            if isinstance(n.ctx, ast.Load) and n.id in b:
+                return copy.deepcopy(b[n.id])
+            return n
+    for r in ast.walk(fn):
+        if isinstance(r, ast.Return) and isinstance(r.value, ast.Call):
+            a2 = [Sub().visit(copy.deepcopy(a)) for a in r.value.args]
+            k2 = {k.arg: Sub().visit(copy.deepcopy(k.value)) for k in r.value.keywords if k.arg}
+            out.extend(_factory_ctor_bindings(prog, mod, r.value.func, a2, k2, depth + 1))
+    return out
+
+
+def _rebuilt_object_roundtrip(prog, ci, cname, lfn, var, values, rel):
+    """A saved value that lives on a helper object: save wrote key k from self.<obj>.<attr>; load rebuilds the helper,
+    <chain>.<obj> = F(.., g(D[k]), ..), and the class F builds sets <attr> = f(parameter).  What was saved is already an f(x):
+    the reloaded attribute f(g(f(x))) must be f(x) again, for every class the factory can return."""
+    out = []
+    dname = None
+    for n in ast.walk(lfn):
+        if isinstance(n, ast.Subscript) and isinstance(n.slice, ast.Constant) and isinstance(n.slice.value, str) and isinstance(n.value, ast.Name):
+            dname = n.value.id
+            break
+    if dname is None:
+        return out
+    nested = {}
+    for k, v in values.items():
+        if isinstance(v, ast.Attribute) and isinstance(v.value, ast.Attribute) and isinstance(v.value.value, ast.Name) \
+                and v.value.value.id == "self":
+            nested[k] = (v.value.attr, v.attr)
+    rz = Resolver(lfn, prog, ci.module, ci)
+
+    class Unwrap(ast.NodeTransformer):
+        """float(x), int(x), array(x), x.copy() restore the Python type an .npz file erased, or copy: identities here"""
+        def visit_Call(self, n):
+            self.generic_visit(n)
+            if isinstance(n.func, ast.Name) and n.func.id in ("float", "int", "bool", "str", "array", "asarray", "list", "tuple") \
+                    and len(n.args) == 1 and not [k for k in n.keywords if k.arg != "dtype"]:
+                return n.args[0]
+            if isinstance(n.func, ast.Attribute) and n.func.attr in ("item", "tolist", "copy") and not n.args:
+                return n.func.value
+            return n
+
+        def visit_IfExp(self, n):
+            self.generic_visit(n)
+            return n.body if U(n.body) == U(n.orelse) else n
+    for key, (obj, attr) in sorted(nested.items()):
+        sites = [st for st in ast.walk(lfn) if isinstance(st, ast.Assign) and len(st.targets) == 1 and isinstance(st.targets[0], ast.Attribute)
+                 and isinstance(st.targets[0].value, ast.Name) and st.targets[0].value.id == var and st.targets[0].attr == obj
+                 and isinstance(st.value, ast.Call)]
+        if len(sites) != 1:
+            continue
+        st = sites[0]
+        def merged(e):
+            """a local re-bound on some path to a type-restoring wrapper of itself (`if x.ndim == 0: x = float(x)`) still names the
+            one value all its definitions unwrap to"""
+            t = rz.term(e, st, keep=(dname, var))
+            for n in [x for x in ast.walk(t) if isinstance(x, ast.Name) and isinstance(x.ctx, ast.Load)]:
+                dvals = [(d_, d_.value) for d_ in ast.walk(lfn) if isinstance(d_, ast.Assign) and len(d_.targets) == 1
+                         and isinstance(d_.targets[0], ast.Name) and d_.targets[0].id == n.id]
+                if len(dvals) < 2:
+                    continue
+                texts = set()
+                for d_, v in dvals:
+                    u = Unwrap().visit(ast.parse(U(rz.term(v, d_, keep=(dname, var, n.id))), mode="eval").body)
+                    if not (isinstance(u, ast.Name) and u.id == n.id):
+                        texts.add(U(u))
+                if len(texts) == 1:
+                    repl = ast.parse(next(iter(texts)), mode="eval").body
+
+                    class S_(ast.NodeTransformer):
+                        def visit_Name(self, x):
+                            return copy.deepcopy(repl) if x.id == n.id and isinstance(x.ctx, ast.Load) else x
+                    t = ast.fix_missing_locations(S_().visit(t))
+            return t
+        args = [merged(a) for a in st.value.args]
+        kwargs = {k.arg: merged(k.value) for k in st.value.keywords if k.arg}
+        for tci, bind in _factory_ctor_bindings(prog, ci.module, st.value.func, args, kwargs):
+            fed = [p_ for p_, e in bind.items() if any(isinstance(n, ast.Subscript) and isinstance(n.value, ast.Name) and n.value.id == dname
+                                                      and isinstance(n.slice, ast.Constant) and n.slice.value == key for n in ast.walk(e))]
+            if len(fed) != 1:
+                continue
+            p_ = fed[0]
+            g = bind[p_]
+            # the constructor (through the MRO) that defines the attribute
+            f = None
+            cur_p = p_
+            for c in prog.mro(tci):
+                init = c.methods.get("__init__")
+                if init is None:
+                    continue
+                sn = init.args.args[0].arg
+                defs = [d for d in ast.walk(init) if isinstance(d, ast.Assign) and len(d.targets) == 1 and isinstance(d.targets[0], ast.Attribute)
+                        and isinstance(d.targets[0].value, ast.Name) and d.targets[0].value.id == sn and d.targets[0].attr == attr]
+                if defs:
+                    rzi = Resolver(init, prog, c.module, c)
+                    f = rzi.term(defs[-1].value, defs[-1], keep=(cur_p,))
+                    break
+                # forwarded to the base constructor: follow the parameter by position / keyword
+                nxt = None
+                for n in ast.walk(init):
+                    if isinstance(n, ast.Call) and isinstance(n.func, ast.Attribute) and n.func.attr == "__init__":
+                        for b in prog.mro(c)[1:]:
+                            bi = b.methods.get("__init__")
+                            if bi is None:
+                                continue
+                            bps = [a.arg for a in bi.args.args[1:]]
+                            for i_, a in enumerate(n.args):
+                                if isinstance(a, ast.Name) and a.id == cur_p and i_ < len(bps):
+                                    nxt = bps[i_]
+                            for k in n.keywords:
+                                if isinstance(k.value, ast.Name) and k.value.id == cur_p:
+                                    nxt = k.arg
+                            break
+                if nxt is None:
+                    break
+                cur_p = nxt
+            if f is None:
+                continue
+            try:
+                fa, _ = abstract(Unwrap().visit(ast.parse(U(f), mode="eval").body), [])
+                ga, _ = abstract(Unwrap().visit(ast.parse(U(g), mode="eval").body), [(f"{dname}['{key}']", "X__")])
+                fv, gv = anf_of(fa), anf_of(ga)
+                once = anf.subst(fv, {("sym", cur_p): R.sym("X__")})            # what save wrote: f(x)
+                again = anf.subst(fv, {("sym", cur_p): anf.subst(gv, {("sym", "X__"): once})})
+                ok = again.eq(once)
+                why = (f"{tci.name} sets {attr} = `{U(f)[:90]}` from `{cur_p}`; load hands it `{U(g)[:60]}`: a saved {attr} = {once} "
+                       f"comes back as {again}")
+            except Unsupported as e:
+                raise AnalysisError(f"rebuilt-object-roundtrip: {tci.name}.{attr} as a function of `{cur_p}` is outside the algebra: {e}")
+            out.append(struct_ob("rebuilt-object-roundtrip", f"{ci.module.name}.{cname}.load[{obj}.{attr}->{tci.name}]", ok,
+                                 f"save wrote key '{key}' from self.{obj}.{attr}; load rebuilds self.{obj} from it, and the rebuilt object "
+                                 f"must carry the saved value again: " + why, rel, st.lineno, tier="F", detail=tci.name))
+    return out
+
+
 def _slot_reselected(prog, pc, ld, var, rel):
     """A bound-method slot (`self.proposal = self.<one of several>`) is chosen by selector methods from flag attributes.  load
     builds a fresh object and overwrites the flags from the file: the selector must run after the last flag it reads has been
@@ -711,6 +875,7 @@ def run(prog, tier):
                              f"default where the saved one had its own value", rel, lfn.lineno, slots={"written": len(values), "read": len(read_k)}))
         obs.append(_derived_consistent(prog, ci, cname, lfn, lc, call, var, rel))
         obs.extend(_ctor_arg_roundtrip(prog, ci, cname, lfn, call, values, rel))
+        obs.extend(_rebuilt_object_roundtrip(prog, ci, cname, lfn, var, values, rel))
 
     meta = {
         "explanation": "Attribute typestate: the constructor chain of each sampler is interpreted abstractly over "
